@@ -84,6 +84,10 @@ def scalar_binop(op, a, b):
 
 
 def binop(op, a, b):
+    if getattr(a, "_pyvc_series", False):
+        return a._bin(b, op)
+    if getattr(b, "_pyvc_series", False):
+        return b._bin(a, op, True)
     if not _sym(a) and not _sym(b):
         return _PYOPS[op](a, b)
     if isinstance(a, SArr) or isinstance(b, SArr) or isinstance(a, np.ndarray) or isinstance(b, np.ndarray) \
